@@ -27,6 +27,57 @@ def _build(out, tdir, toolchain=None, rustflags=None):
     return b
 
 
+def published_headers(chk):
+    """the other side of the plugin boundary reads the layout from the headers cglue-bindgen publishes:
+    every object/container type there must have the size the Rust definitions give it"""
+    import json
+    import bgrun
+    from bgrun import emit, emit_cpp
+    # (a) the size model against the real Rust types of examples/plugin-api
+    pm = emit.plugin_api_model()
+    try:
+        t = common.cargo_build(os.path.join(VERIF, "sizeprobe"), "sizeprobe")
+        r = common.run([os.path.join(t, "release", "sizeprobe")], timeout=60)
+        real = json.loads(r["out"].strip().splitlines()[-1])
+    except Exception as e:   # noqa: BLE001
+        chk.incon("sizeprobe (real Rust sizes of examples/plugin-api) did not run: %s" % str(e)[:300])
+        real = {}
+    n = 0
+    for key, (sz, al) in real.items():
+        kind, name, inst, ctx = key.split(":")
+        want = emit.rust_sizes(pm, kind, name, inst, ctx)[0]
+        n += 1
+        if sz != want or al != 8:
+            chk.violation("C04:object-size-vs-documented-structure", "%s: size_of = %d, align %d; vtable pointers + instance + context + temporary storage add up to %d" % (key, sz, al, want), dict(key=key))
+    # (b) the published headers
+    binary = bgrun.tool()
+    cases = [("plugin-api", pm, None)] + [("s%d" % i, emit.random_model(chk.seed * 1000 + i, wrapped=True), None) for i in range(4 if chk.tier == "quick" else 40)]
+    compared = 0
+    for name, model, _ in cases:
+        w = os.path.join(WORK, "layout", chk.tier, "hdr-" + name)
+        em = emit.emit(model)
+        r = bgrun.run_tool(binary, w, em.text, config=None)
+        if r["rc"] == 0 and r["text"]:
+            res = bgrun.drive(w, em, model, r["out_path"], r["text"])
+            sv, k = bgrun.judge_sizes(em, model, res.get("sizes", {}), "C")
+            compared += k
+            for sig, d in sv[:1]:
+                chk.violation("C04:" + sig, "model %s: %s" % (name, d), dict(model=name, mode="C"))
+        if name == "plugin-api":
+            model, emc = emit_cpp.plugin_api_cpp()
+        else:
+            model, emc, _, _ = emit_cpp.random_cpp(chk.seed * 1000 + int(name[1:]), wrapped=True)
+        r = bgrun.run_tool_cpp(binary, w + "-cpp", emc.text, config=None)
+        if r["rc"] == 0 and r["text"]:
+            res = bgrun.drive_cpp(w + "-cpp", emc, model, r["out_path"], r["text"])
+            sv, k = bgrun.judge_sizes(emc, model, res.get("sizes", {}), "C++")
+            compared += k
+            for sig, d in sv[:1]:
+                chk.violation("C04:" + sig, "model %s: %s" % (name, d), dict(model=name, mode="C++"))
+    chk.part("published-headers", rust_types_measured=n, header_types_compared=compared)
+    chk.floor("header types compared with the Rust layout", compared, 8)
+
+
 def run(chk, replay=None):
     q = chk.tier == "quick"
     out = os.path.join(WORK, "layout", chk.tier)
@@ -85,6 +136,7 @@ def run(chk, replay=None):
             if "repr(C)" not in s.replace(" ", "") and "repr(transparent)" not in s.replace(" ", ""):
                 name = s.split(" repr")[0]
                 chk.violation("C04:generated-struct-without-repr-c:" + re.sub(r"<.*", "", name.split("::")[-1]), "generated struct has no #[repr(C)]: %s" % s[:300], None)
+    published_headers(chk)
     p = chk.parts.get("probes-stable", {})
     words = sum(int(v.get("words_compared", 0)) for k, v in chk.parts.items() if k.startswith("probes"))
     chk.coverage["evaluations"] = words
@@ -92,7 +144,9 @@ def run(chk, replay=None):
     chk.coverage["rule"] = ("live objects read word by word (as a foreign caller addresses them): every vtable of the probe traits against the getters of its methods in declaration order and its size; "
                             "opaque vs concrete form of each object (size, alignment, words); every group H/Q/M3 x enabled set x {Box,Mut,Ref} x {no context, CArc}: mandatory vtable words in our own "
                             "name order, optional words null/non-null and equal to the vtable a cast exposes, instance word == address the implementor reports, context word == Arc::as_ptr, total size, "
-                            "words unchanged by cast+upcast. Repeated on nightly builds with -Zrandomize-layout (one per layout seed). Generator run in fresh processes: identical struct listings. "
+                            "words unchanged by cast+upcast. Repeated on nightly builds with -Zrandomize-layout (one per layout seed). Generator run in fresh processes: identical struct listings. The other side of a plugin boundary reads the layout from the headers cglue-bindgen "
+                            "publishes: sizeof of every object and container type in processed C and C++ headers (plugin-api + seeded models with borrowed-return storage) against the size the Rust "
+                            "definitions give it; that size model is itself checked against size_of of the real examples/plugin-api types. "
                             "evaluations = words compared; distinct = objects/vtables probed")
     chk.floor("vtables probed", int(p.get("vtables_probed", 0)), 15)
     chk.floor("group objects probed", int(p.get("group_objects_probed", 0)), 100)
